@@ -19,7 +19,7 @@ sfx=""; { [ "$N" = "2" ] || [ "$N" = "4" ] || [ "$N" = "6" ] || [ "$N" = "8" ] |
 PATCH=$OUT/patch$sfx.diff; DEMO=$OUT/demo$sfx; META=$OUT/meta$sfx.json
 [ -f "$PATCH" ] || { echo "no $PATCH"; exit 2; }
 export GOFLAGS=-mod=mod GOPROXY=off GOSUMDB=off GOTOOLCHAIN=local
-WT=/tmp/sd/wt-$lc-$N; rm -rf $WT; mkdir -p /tmp/sd; git -C /repo worktree prune; git -C /repo worktree add --detach $WT HEAD -q || exit 2
+WT=/tmp/sd/wt-$lc-$N; rm -rf $WT; mkdir -p /tmp/sd; git -C /repo worktree prune; git -C /repo worktree add --detach $WT ${SEEDED_BASE:-HEAD} -q || exit 2   # SEEDED_BASE=dbde1ab: the tree the patches of rounds 1-9 were written against (before repair F21)
 DEST=/verif/seeded/$ID-$N; mkdir -p $DEST; LOG=$DEST/confirm.log
 [ -n "$DEMO_ONLY" ] && LOG=$DEST/confirm-demo.log
 : > $LOG
